@@ -127,22 +127,26 @@ func runC16(c c16Case) (res string) {
 			}
 			// Len after groups of 2, 1, 2, 3, 4 further mutations (sets of new keys, then deletes of them)
 			want := c.N
-			next, added := 0, 0
+			present, adding := 0, true
 			for _, group := range []int{2, 1, 2, 3, 4, 2} {
 				for m := 0; m < group; m++ {
-					if added < 6 {
-						k := []byte(fmt.Sprintf("~extra%d", next))
-						next++
-						added++
-						if err := col.SetItem(&gkvlite.Item{Key: k, Val: []byte("x"), Priority: int32(next)}); err != nil {
+					if present == 0 {
+						adding = true
+					} else if present == 6 {
+						adding = false
+					}
+					if adding {
+						k := []byte(fmt.Sprintf("~extra%d", present))
+						if err := col.SetItem(&gkvlite.Item{Key: k, Val: []byte("x"), Priority: int32(present + 1)}); err != nil {
 							return "set: " + err.Error()
 						}
+						present++
 						want++
 					} else {
-						next--
-						k := []byte(fmt.Sprintf("~extra%d", next))
-						if _, err := col.Delete(k); err != nil {
-							return "delete: " + err.Error()
+						present--
+						k := []byte(fmt.Sprintf("~extra%d", present))
+						if ok, err := col.Delete(k); err != nil || !ok {
+							return fmt.Sprintf("delete: %v %v", ok, err)
 						}
 						want--
 					}
